@@ -42,8 +42,9 @@ def eqc(a, b):
                   symx.qt(a.im) == symx.qt(b.im))
 
 
-def build(E, c, recs, aniso, mapping, nan_at=None, nsrc=1, rel=False):
-    W = simx.World()
+def build(E, c, recs, aniso, mapping, nan_at=None, nsrc=1, rel=False,
+          W=None, sim_kw=None):
+    W = W or simx.World()
     keep = []
     saved = simx.install(E, W, keep) + [None]
     sv13 = c13.install(E)
@@ -63,7 +64,7 @@ def build(E, c, recs, aniso, mapping, nan_at=None, nsrc=1, rel=False):
     sim = E.simulations.Simulation(sv, model, gridding='same',
                                    max_workers=1,
                                    receiver_interpolation='linear', verb=0,
-                                   tqdm_opts=False)
+                                   tqdm_opts=False, **(sim_kw or {}))
     return dict(W=W, saved=saved[:-1], sv13=sv13, grid=grid, sv=sv, d=d,
                 nf=nfq, model=model, vals=vals, sim=sim, keep=keep)
 
@@ -186,7 +187,10 @@ def check_identities(E, c, X, case, grp, run_gradient, pid='C07'):
                     else None))
             # (ii) theorem expression from E and lambda of this source
             ef = sim._dict_get('efield', sname, fname)
-            bf = sim._dict_get('bfield', sname, fname)
+            # lambda = Solve(model, adjoint source, tol_gradient): the very
+            # field the gradient run obtained (same uninterpreted function)
+            bf = E._multiprocessing.solver.solve(
+                sim.model, rfield, tol=sim.tol_gradient)[0]
             eparts = [ef.fx, ef.fy, ef.fz]
             bparts = [bf.fx, bf.fy, bf.fz]
             h = grid.h
